@@ -1,4 +1,4 @@
-import B6.Lemmas.MutableRoot
+import B6.Lemmas.MutableRefs
 /-!
 # C12 — Mutable overlay world behaves like a map of features under any edits
 
@@ -184,6 +184,20 @@ theorem index_inv_ops {b : View} {o : Oracle} (hb : b.IdsOK) (hbt : b.TagsOK) (o
     (hop : ∀ op ∈ ops, opOK op) : IndexInv (runOps b o Layer.empty ops).1 :=
   (wf_runOps hb hbt ops Layer.empty (wf_empty b) hop).index
 
+/-- **Reference table, one step.** `m.references` is exactly the inverse of the references (path points,
+area paths, relation members, collection keys) of the features the overlay currently holds — after every
+operation and whatever it answers (rejected `AddFeature`s included): `AddFeature`'s remove / merge / re-add
+sequence over the existing feature, the referrers already in the overlay and the copied ones, and
+`AddTag` / `RemoveTag`'s copies keep it so. -/
+theorem refs_inv_step {b : View} {o : Oracle} {l l' : Layer} {op : Op} {r : Option Err}
+    (hb : b.IdsOK) (hl : l.FeatsId) (hi : RefsInv l) (h : l.step b o op = (l', r)) : RefsInv l' :=
+  (refsInv_step hb hl hi h).1
+
+/-- **Reference table, any history** from a fresh overlay. -/
+theorem refs_inv_ops {b : View} {o : Oracle} (hb : b.IdsOK) (ops : List Op) :
+    RefsInv (runOps b o Layer.empty ops).1 :=
+  refsInv_runOps hb ops Layer.empty (fun i f h => by simp [Layer.empty] at h) refsInv_empty
+
 /-- **Tag search refines the map.** If the base's own tag search is exact, then after any state reached
 (`l.WF b`) every single-token search of the world returns exactly — and in id order — the features
 whose tags in the per-feature map produce the token. -/
@@ -277,6 +291,15 @@ example :
     let l := (runOps (rootView exampleRoot) ⟨fun _ => true, fun _ => false⟩ Layer.empty exampleOps).1
     let v := l.view (rootView exampleRoot) (l.loc (rootView exampleRoot))
     tagOf v 2 "name" = some (some ⟨"s", "plain"⟩) ∧ v.search "amenity=cafe" = [1, 2] := by
+  decide
+
+/-- relations: a relation that contains itself and a base point, then a relation of that relation — the
+world's `FindReferences` follows the chain and ends on the cycle -/
+example :
+    let l := (runOps (rootView exampleRoot) ⟨fun _ => true, fun _ => false⟩ Layer.empty
+      [.addFeature ⟨3012, [], .relation [3012, 1]⟩, .addFeature ⟨3013, [], .relation [3012]⟩]).1
+    let v := l.view (rootView exampleRoot) (l.loc (rootView exampleRoot))
+    sameRefs (v.refs 1) [1005, 3012, 3013] = true ∧ sameRefs (v.refs 3012) [3012, 3013] = true := by
   decide
 
 end B6.Props.C12
